@@ -63,7 +63,8 @@ def sandbox_side(src, inputs, calls, files=None, threaded=False, input_mode='set
             out['calls'].append(['undefined', name])
             continue
         try:
-            r = S.call(name, *[eval(a) for a in args], **kw)
+            # an argument written @fn() is the RESULT of an earlier call(), handed on as the grader got it
+            r = S.call(name, *[S.call(a[1:-2]) if a.startswith('@') else eval(a) for a in args], **kw)
             v = unwrap_value(r)
             if isinstance(v, BaseException):
                 # ... and where: the line of the student's file the runtime feedback of this call points at
